@@ -54,8 +54,15 @@ def main():
     for sid in sorted(x for x in os.listdir(SEEDED) if os.path.isdir(os.path.join(SEEDED, x))):
         m = json.load(open(os.path.join(SEEDED, sid, "meta.json")))
         cr = m.get("check_result", {})
-        rows.append(f"| {sid} | {m.get('property','')} | {', '.join(m.get('files_touched', []))[:60]} | {cr.get('status','not run')} | {'; '.join(cr.get('failed_obligations', []))[:160].replace('|','/')} |")
-    open(os.path.join(SEEDED, "RESULTS.md"), "w").write("# Seeded changes vs. registered checks\n\n| seed | property | files | result | failed obligation(s) |\n|---|---|---|---|---|\n" + "\n".join(rows) + "\n")
+        kinds = []
+        for o in cr.get("failed_obligations", []):
+            k = "bounded replay" if o.startswith("xcheck:") else "macro-output validation" if o.startswith("trie:") else "Kani harness" if o.startswith("kani:") else "replayed input" if o.startswith("replay:") else "Verus obligation"
+            if k not in kinds:
+                kinds.append(k)
+        if any(l.startswith("TOOL") for l in cr.get("lines", [])):
+            kinds.append("(deductive pass: tool failure)")
+        rows.append(f"| {sid} | {m.get('property','')} | {', '.join(m.get('files_touched', []))[:60]} | {cr.get('status','not run')} | {', '.join(kinds)} | {'; '.join(cr.get('failed_obligations', []))[:200].replace('|','/')} |")
+    open(os.path.join(SEEDED, "RESULTS.md"), "w").write("# Seeded changes vs. registered checks (quick tier, scratch copies of /repo HEAD)\n\n| seed | property | files | result | reported by | failed obligation(s) / scenario |\n|---|---|---|---|---|---|\n" + "\n".join(rows) + "\n")
 
 
 if __name__ == "__main__":
